@@ -184,7 +184,7 @@ type scRun struct {
 	plan   crashPlan
 	tgt    lcCfg
 	incs   int   // incarnations of the target started so far
-	writes []int // dry run: writes per incarnation of the target
+	recs   []*recorder // the target's incarnations, in order
 	seed   int64
 	dead   bool
 }
@@ -193,7 +193,6 @@ func (s *scRun) startTarget() {
 	if s.dead {
 		return
 	}
-	s.noteWrites()
 	s.incs++
 	at, side := 0, ""
 	if s.plan.inc == s.incs {
@@ -202,13 +201,8 @@ func (s *scRun) startTarget() {
 	if err := s.w.start(1, s.tgt, s.seed+int64(s.incs), at, side); err != nil {
 		s.w.fatal = err.Error()
 	}
+	s.recs = append(s.recs, s.w.inc[1].rec)
 	s.check()
-}
-
-func (s *scRun) noteWrites() {
-	if c := s.w.inc[1]; c != nil && len(s.writes) < s.incs {
-		s.writes = append(s.writes, c.rec.writes)
-	}
 }
 
 func (s *scRun) check() {
@@ -292,9 +286,8 @@ func scenarios() []scenario {
 func runScenario(w *world, sc scenario, plan crashPlan, seed int64) (writes []int, crashed bool) {
 	s := &scRun{w: w, plan: plan, tgt: sc.tgt, seed: seed}
 	sc.run(s)
-	s.noteWrites()
-	if c := w.inc[1]; c != nil && len(s.writes) < s.incs {
-		s.writes = append(s.writes, c.rec.writes)
+	for _, r := range s.recs {
+		writes = append(writes, r.writes)
 	}
 	if s.dead && w.fatal == "" {
 		if err := w.start(1, sc.tgt, seed+50, 0, ""); err != nil {
@@ -304,7 +297,7 @@ func runScenario(w *world, sc scenario, plan crashPlan, seed int64) (writes []in
 	if w.fatal == "" {
 		w.sleep(sc.tgt.Join + 3*sc.tgt.Obs + 4)
 	}
-	return s.writes, s.dead
+	return writes, s.dead
 }
 
 func (p crashPlan) String() string {
